@@ -8,82 +8,6 @@ import Rcgen.Proofs.CsrDecode
 namespace Rcgen.Proofs.Canon
 open Rcgen Rcgen.Model Rcgen.Spec Rcgen.Proofs.Leaf Rcgen.Proofs.X509 Rcgen.Proofs.CertDecode
 
-/-! ### OBJECT IDENTIFIER: every sub-identifier minimal -/
-
-theorem go_hi_false (f : Nat) : ∀ (m : Nat) (tail : Bytes),
-    oidMinimal.go (base128Hi f m ++ tail) false = oidMinimal.go tail false := by
-  induction f with
-  | zero => intro m tail; rfl
-  | succ f ih =>
-    intro m tail
-    simp only [base128Hi]
-    split
-    · rfl
-    · rw [List.append_assoc, ih]
-      have hb : (UInt8.ofNat (128 + m % 128)).toNat = 128 + m % 128 := u8_toNat_ofNat _ (by omega)
-      simp only [List.singleton_append, oidMinimal.go, hb, Bool.false_and, Bool.false_eq_true, if_false]
-      have hd : decide (128 + m % 128 < 128) = false := by simp
-      rw [hd]
-
-theorem go_hi_true (f : Nat) : ∀ (m : Nat) (_ : m ≤ f) (_ : m ≠ 0) (tail : Bytes),
-    oidMinimal.go (base128Hi f m ++ tail) true = oidMinimal.go tail false := by
-  induction f with
-  | zero => intro m h h0; omega
-  | succ f ih =>
-    intro m hm h0 tail
-    simp only [base128Hi, h0, if_false, List.append_assoc, List.singleton_append]
-    have hb : (UInt8.ofNat (128 + m % 128)).toNat = 128 + m % 128 := u8_toNat_ofNat _ (by omega)
-    by_cases hq : m / 128 = 0
-    · have hnil : base128Hi f (m / 128) = [] := by
-        rw [hq]; cases f <;> simp [base128Hi]
-      rw [hnil]
-      have hm0 : m % 128 ≠ 0 := by omega
-      simp only [List.nil_append, oidMinimal.go, hb, Bool.true_and]
-      have h1 : (128 + m % 128 == 128) = false := by simp; omega
-      simp only [h1, Bool.false_eq_true, if_false]
-      have hd : decide (128 + m % 128 < 128) = false := by simp
-      rw [hd]
-    · rw [ih (m / 128) (by omega) hq]
-      simp only [oidMinimal.go, hb, Bool.false_and, Bool.false_eq_true, if_false]
-      have hd : decide (128 + m % 128 < 128) = false := by simp
-      rw [hd]
-
-theorem go_base128 (n : Nat) (tail : Bytes) :
-    oidMinimal.go (base128 n ++ tail) true = oidMinimal.go tail true := by
-  unfold base128
-  have hl : (UInt8.ofNat (n % 128)).toNat = n % 128 := u8_toNat_ofNat _ (by omega)
-  by_cases hq : n / 128 = 0
-  · have hnil : base128Hi n (n / 128) = [] := by
-      rw [hq]; cases n <;> simp [base128Hi]
-    rw [hnil]
-    simp only [List.nil_append, List.singleton_append, oidMinimal.go, hl, Bool.true_and]
-    have h1 : (n % 128 == 128) = false := by simp; omega
-    simp only [h1, Bool.false_eq_true, if_false]
-    have hd : decide (n % 128 < 128) = true := by simp; omega
-    rw [hd]
-  · rw [List.append_assoc, go_hi_true n (n / 128) (Nat.div_le_self n 128) hq]
-    simp only [List.singleton_append, oidMinimal.go, hl, Bool.false_and, Bool.false_eq_true, if_false]
-    have hd : decide (n % 128 < 128) = true := by simp; omega
-    rw [hd]
-
-theorem go_flatMap (rest : List Nat) : oidMinimal.go (rest.flatMap base128) true = true := by
-  induction rest with
-  | nil => rfl
-  | cons a r ih => simp only [List.flatMap_cons]; rw [go_base128, ih]
-
-theorem base128_ne_nil (n : Nat) : base128 n ≠ [] := by unfold base128; simp
-
-theorem oidMinimal_oidContent (arcs : List Nat) (h : oidOk arcs = true) :
-    oidMinimal (oidContent arcs) = true := by
-  match arcs, h with
-  | a :: b :: rest, _ =>
-    unfold oidMinimal oidContent
-    rw [go_base128, go_flatMap]
-    have := base128_ne_nil (a * 40 + b)
-    cases hb : base128 (a * 40 + b) with
-    | nil => exact absurd hb this
-    | cons x xs => simp [hb]
-
 theorem canonical_oid (arcs : List Nat) (h : oidOk arcs = true) :
     canonical (Asn1.oid arcs) = true := by
   simp [Asn1.oid, canonical, primCanonical, oidMinimal_oidContent arcs h, oidArcs_oidContent arcs h]
